@@ -261,7 +261,7 @@ func parseNumber[D []byte | string](d D, neg, sepallowed bool) (Decimal, error) 
 				nfrac++
 			}
 		case c == '.':
-			if sawdot {
+			if sawdot || (sawdig && !cansep) {
 				return Decimal{}, parseNumberSyntaxError{}
 			}
 
@@ -270,7 +270,7 @@ func parseNumber[D []byte | string](d D, neg, sepallowed bool) (Decimal, error) 
 			cansgn = false
 			sawdot = true
 		case c == 'E' || c == 'e':
-			if !sawdig {
+			if !sawdig || !caneof {
 				return Decimal{}, parseNumberSyntaxError{}
 			}
 
@@ -346,7 +346,7 @@ func parseNumber[D []byte | string](d D, neg, sepallowed bool) (Decimal, error) 
 				}
 			}
 		case c == '.':
-			if sawdot || sawexp {
+			if sawdot || sawexp || (sawdig && !cansep) {
 				return Decimal{}, parseNumberSyntaxError{}
 			}
 
@@ -355,7 +355,7 @@ func parseNumber[D []byte | string](d D, neg, sepallowed bool) (Decimal, error) 
 			cansgn = false
 			sawdot = true
 		case c == 'E' || c == 'e':
-			if !sawdig || sawexp {
+			if !sawdig || sawexp || !caneof {
 				return Decimal{}, parseNumberSyntaxError{}
 			}
 
@@ -373,7 +373,7 @@ func parseNumber[D []byte | string](d D, neg, sepallowed bool) (Decimal, error) 
 			cansgn = false
 			eneg = true
 		case c == '_':
-			if !cansep {
+			if !sepallowed || !cansep {
 				return Decimal{}, parseNumberSyntaxError{}
 			}
 
@@ -393,7 +393,7 @@ func parseNumber[D []byte | string](d D, neg, sepallowed bool) (Decimal, error) 
 		}
 	}
 
-	if !caneof {
+	if !caneof || !sawdig {
 		return Decimal{}, parseNumberSyntaxError{}
 	}
 
